@@ -435,7 +435,11 @@ def applyOpSet (F : Facts) (fuel : Nat) (nets : List Net) (op : Op) : Except Str
     if !nets.all (fun n => n.readers.contains r) then .error "bad-op: recv on a reader not held" else
     let outs := nets.flatMap fun net => recvAll F fuel net r
     let good := outs.filterMap fun o => if o.1 == obs then some o.2 else none
-    if !good.isEmpty then .ok ((dedupNets good).take maxStates, []) else
+    if !good.isEmpty then
+      let d := dedupNets good
+      -- more explanations than are kept: say so instead of risking to drop the right one
+      if d.length > maxStates then .error "inconclusive:too-many-explanations" else .ok (d, [])
+    else
     if outs.isEmpty then .error "mismatch:recv-returned-but-nothing-can-be-delivered"
     else match obs with
       | .eof => .error "mismatch:recv-eof-but-items-remain"
@@ -446,7 +450,7 @@ def applyOpSet (F : Facts) (fuel : Nat) (nets : List Net) (op : Op) : Except Str
     let rs := nets.map fun n => applyOp F fuel n op
     let oks := rs.filterMap fun r => match r with | .ok x => some x | .error _ => none
     match oks with
-    | x :: _ => .ok ((dedupNets (oks.map (·.1))).take maxStates, x.2)
+    | x :: _ => .ok (dedupNets (oks.map (·.1)), x.2)
     | [] =>
       match rs with
       | .error e :: _ => .error e
